@@ -182,7 +182,9 @@ def parseEnvG (j : Json) : G.Env :=
       (jChars p "key", (jArr p "versions").map fun v => (jNat v "rank", parseMeta (jObj v "meta"))),
     possible := (jArr j "possible").map fun p => (jNats p "cs", jBool p "ok"),
     neClause := (jArr j "ne").map fun p => ((jChars p "key", jNat p "rank"), jNat p "clause"),
-    order := parseOrder j }
+    order := parseOrder j,
+    front := G.solutionFront ((jArr j "front").map fun p =>
+      (jChars p "key", (jArr p "versions").map fun v => (jNat v "rank", parseMeta (jObj v "meta")))) ((jStrs j "released").map String.toList) }
 
 def opCompile (j : Json) : Json :=
   let env := parseEnvG j
